@@ -81,7 +81,7 @@ func (w *World) vtaReachable() map[string]bool {
 	out := map[string]bool{}
 	for n := range seen {
 		if n.Func != nil && (n.Func.Pkg != nil || n.Func.Origin() != nil) {
-			out[fnShort(n.Func)] = true
+			out[fnReal(n.Func)] = true
 		}
 	}
 	return out
